@@ -97,6 +97,17 @@ val idle_dequeue :
 val handle_fc :
   cfg -> layer -> fcpdu -> (layer * event list) option * (layer * event list)
 
+val tx_after_fc : cfg -> layer -> (tx_report, layer * event list) sum
+
+val tx_finish :
+  params -> layer -> event list -> frame option -> bool -> tx_report
+
+val tx_cf : cfg -> coq_Z -> layer -> event list -> tx_report
+
+val tx_fsm : cfg -> coq_Z -> layer -> event list -> tx_report
+
+val process_tx_main : cfg -> coq_Z -> layer -> tx_report
+
 val process_tx : cfg -> layer -> tx_report
 
 type stats = { st_received : coq_Z; st_processed : coq_Z; st_sent : coq_Z;
